@@ -797,6 +797,36 @@ func (p *pool) bad(r *rng.R) string {
 	return garbage[r.Intn(len(garbage))]
 }
 
+// badJSON is a JSON document that decodes into a file but does not pass Create / Validate (FileFromJSON
+// returns the partially built file together with the error): descending batch numbers, or a lower-case
+// file ID modifier.  MergeDir must report it like any other unreadable file.
+func (p *pool) badJSON(r *rng.R) string {
+	c := p.files[r.Intn(len(p.files))]
+	var doc map[string]any
+	if json.Unmarshal([]byte(c.jsonT), &doc) != nil {
+		return garbage[3]
+	}
+	bs, _ := doc["batches"].([]any)
+	if len(bs) >= 2 && r.Bool() {
+		n := len(bs)
+		for i, b := range bs {
+			m, _ := b.(map[string]any)
+			for _, k := range []string{"batchHeader", "batchControl"} {
+				if h, ok := m[k].(map[string]any); ok {
+					h["batchNumber"] = n - i + 1
+				}
+			}
+		}
+	} else if h, ok := doc["fileHeader"].(map[string]any); ok {
+		h["fileIDModifier"] = "a"
+	}
+	out, err := json.Marshal(doc)
+	if err != nil {
+		return garbage[3]
+	}
+	return string(out)
+}
+
 type genOpts struct {
 	maxFiles int
 	badRate  int // of 100 accepted files
@@ -894,7 +924,11 @@ func genCase(r *rng.R, p *pool, g genOpts) *Case {
 			case ach.AcceptAsJSON:
 				data = pick().jsonT
 				if bad && r.Chance(1, 3) {
-					data = p.bad(r)
+					if r.Bool() {
+						data = p.badJSON(r)
+					} else {
+						data = p.bad(r)
+					}
 				}
 			default:
 				data = garbage[r.Intn(len(garbage))]
